@@ -9,7 +9,7 @@ CB_T = r'struct stop_callback \{'
 PRE = [
     # enum _op::state: enumerators get the C prefix ST_ (try_complete has a local called non_stop)
     (r'\bop::(stopped|started|completed|non_stop)\b', r'ST_\1'),
-    (r'(?<![\w:.>])(stopped|started|completed|non_stop)\b(?!\s*[=(])', r'ST_\1'),
+    (r'(?<![\w:.>])(stopped|started|completed)\b(?!\s*[=(])', r'ST_\1'),
     (r'using op = _op<NestedOp>;', ''),
     # the nested operation's hooks (user code)
     (r'unifex::start\((?:this->)?nested_op\(\)\)', 'EV_nested_start(this)'),
@@ -25,7 +25,6 @@ PRE = [
     # manual_lifetime_union<StopToken, stop_callback_t> stop_: token copied out, destroyed, callback constructed in the same storage
     (r'auto token\{stop_\.template get<StopToken>\(\)\};', 'EV_token_get(this);'),
     (r'stop_\.template destruct<StopToken>\(\);', 'EV_token_destruct(this);'),
-    (r'stop_\.template construct<stop_callback_t>\(token, ST_stop_callback\{this\}\);', 'EV_cb_construct(this);'),
     (r'stop_\.template construct<stop_callback_t>\(token, op::stop_callback\{this\}\);', 'EV_cb_construct(this);'),
     (r'op::stop_type::start\(\)', 'stop_type_start(this)'),
 ]
@@ -46,7 +45,7 @@ cb_ctx = dict(cls='stop_callback', members=['op_'])
 SPIN_INV = ('__CPROVER_assigns(sync_complete, OP.state_, OP.cleanup_, OP.sync_complete_, G.k_phase, G.cb_state, G.pending, G.flag, G.dead, G.snap, '
             'G.s_phase, G.nstarted, G.early, G.s_stop, G.k_stop, G.flag_checks, G.flag_last)\n'
             '__CPROVER_loop_invariant(G.s_phase == S_SPIN && G.nstarted && !G.early && G.flagp == &sync_complete && G.flag == sync_complete '
-            '&& (G.pending || G.flag) && INV_NOW && (!G.dead || OP_EQ_SNAP) && G.s_stop == 0 && G.flag_checks >= 1)')
+            '&& (G.pending || G.flag) && INV_NOW_OR_DEAD && (!G.dead || OP_EQ_SNAP) && G.s_stop == 0 && G.flag_checks >= 1)')
 
 SPEC = dict(
     properties=['C19', 'C02'],
@@ -56,13 +55,14 @@ SPEC = dict(
         'ST_started': dict(file=H, kind='expr', sig=r'enum state : uint8_t \{[^}]*\bstarted = (\d+),'),
         'ST_completed': dict(file=H, kind='expr', sig=r'enum state : uint8_t \{[^}]*\bcompleted = (\d+),'),
         'ST_non_stop': dict(file=H, kind='expr', sig=r'enum state : uint8_t \{[^}]*\bnon_stop = (\d+)\s*\}'),
-        'state_init_nonstop': dict(file=H, kind='expr', sig=r'uint8_t state =\s*(\w+)\) noexcept\(is_nothrow_connectable_v<Sender, Receiver>\)'),
+        'state_init_nonstop': dict(file=H, kind='expr', sig=r'uint8_t state =\s*(\w+)\) noexcept\(is_nothrow_connectable_v<Sender, Receiver>\)',
+                                   ctx=dict(pre=[(r'^non_stop$', 'ST_non_stop')])),
         'state_init_stop': dict(file=H, kind='expr', sig=r'std::forward<Receiver>\(receiver\),\s*(\w+)\) \{\s*stop_\.template construct<StopToken>'),
         'cleanup_init': dict(file=H, kind='expr', sig=r'void \(\*cleanup_\)\(stop_type\*\) noexcept = (\[\]\(stop_type\*\) noexcept \{\s*\});'),
         'sync_complete_init': dict(file=H, kind='expr', sig=r'std::atomic<bool>\* sync_complete_\{([^}]*)\}'),
-        'try_complete': dict(file=H, sig=r'bool try_complete\(NestedOp\* self\) noexcept', must_contain=[r'fetch_or', r'cleanup_']),
+        'try_complete': dict(file=H, sig=r'bool try_complete\(NestedOp\* self\) noexcept', must_contain=[r'cleanup_']),
         'stop_type_start': dict(file=H, sig=r'void start\(\) noexcept', within=[NS, STOP_T], loops={0: SPIN_INV},
-                                must_contain=[r'sync_complete_ = &sync_complete']),
+                                must_contain=[r'unifex::start\(this->nested_op\(\)\)']),
         'stop_type_dtor': dict(file=H, sig=r'~stop_type\(\)', within=[NS, STOP_T]),
         'non_stop_start': dict(file=H, sig=r'void start\(\) noexcept', within=[NS, NONSTOP_T]),
         'stop_callback_call': dict(file=H, sig=r'void operator\(\)\(\) noexcept', within=[NS, CB_T], ctx=cb_ctx),
@@ -75,15 +75,15 @@ SPEC = dict(
         r'std::atomic<bool>\* sync_complete_\{nullptr\};',
     ])],
     units=[
-        dict(name='try_complete', harness='h_try_complete', enforce='try_complete'),
-        dict(name='stop_type_start', harness='h_stop_type_start', enforce='stop_type_start', expect_loop_obligations=True),
-        dict(name='stop_callback', harness='h_stop_callback', enforce='stop_callback_call'),
-        dict(name='type_start', harness='h_type_start', enforce='type_start', defines=['VF_STUB_STOP_TYPE_START']),
-        dict(name='stop_type_dtor', harness='h_stop_type_dtor', enforce='stop_type_dtor'),
-        dict(name='non_stop_start', harness='h_non_stop_start', enforce='non_stop_start'),
-        dict(name='lemma_cancellable_protocol', harness='lemma_cancellable_protocol', mode='lemma'),
-        dict(name='lemma_cancellable_rely', harness='lemma_cancellable_rely', mode='lemma'),
-        dict(name='lemma_cancellable_init', harness='lemma_cancellable_init', mode='lemma'),
+        dict(name='try_complete', harness='h_try_complete', enforce='try_complete', props=['C19', 'C02']),
+        dict(name='stop_type_start', harness='h_stop_type_start', enforce='stop_type_start', expect_loop_obligations=True, props=['C19']),
+        dict(name='stop_callback', harness='h_stop_callback', enforce='stop_callback_call', props=['C19']),
+        dict(name='type_start', harness='h_type_start', enforce='type_start', defines=['VF_STUB_STOP_TYPE_START'], props=['C19', 'C02']),
+        dict(name='stop_type_dtor', harness='h_stop_type_dtor', enforce='stop_type_dtor', props=['C19', 'C02']),
+        dict(name='non_stop_start', harness='h_non_stop_start', enforce='non_stop_start', props=['C19']),
+        dict(name='lemma_cancellable_protocol', harness='lemma_cancellable_protocol', mode='lemma', props=['C19']),
+        dict(name='lemma_cancellable_rely', harness='lemma_cancellable_rely', mode='lemma', props=['C19']),
+        dict(name='lemma_cancellable_init', harness='lemma_cancellable_init', mode='lemma', props=['C19']),
     ],
     assumptions=[
         'every completion of the nested operation is preceded by try_complete(this) and only the caller that got true completes the receiver (documented contract of cancellable, doc/api_reference.md)',
